@@ -101,6 +101,8 @@ func lenField(b []byte) string {
 }
 
 // InjectCase is C17(b): a history with a gate-failing packet injected at one index.
+var slowInjectDone bool
+
 type InjectCase struct {
 	H      *hist.History
 	At     int
@@ -110,6 +112,11 @@ type InjectCase struct {
 	Quiet bool `json:",omitempty"`
 	// OwnID: the replica is configured with the server id the master's events carry (a ring of servers)
 	OwnID bool `json:",omitempty"`
+	// DelayMs: the master pauses this long in front of the malformed packet (a replica that does something
+	// periodically gets the chance to do it on exactly that packet)
+	DelayMs int `json:",omitempty"`
+	// EmptyName: the start position names no file (= the master's first file)
+	EmptyName bool `json:",omitempty"`
 }
 
 func checkInject(c *InjectCase) error {
@@ -123,7 +130,11 @@ func checkInject(c *InjectCase) error {
 	if c.OwnID {
 		sid = c.H.Cfg.ServerID
 	}
-	ss, err := newSession(c.H.Tables, sid, start)
+	callerStart := start
+	if c.EmptyName {
+		callerStart.File = ""
+	}
+	ss, err := newSession(c.H.Tables, sid, callerStart)
 	if err != nil {
 		return fmt.Errorf("harness: %v", err)
 	}
@@ -131,6 +142,15 @@ func checkInject(c *InjectCase) error {
 	f := Fault{Kind: "invalid", At: c.At, Sub: c.Sub}
 	var streamPanic interface{}
 	at := attempt{l: l, pacing: c.Pacing, mutate: applyFault(l, f)}
+	if c.DelayMs > 0 {
+		at.plan = &fakemaster.ConnPlan{Gate: func(i int, s *fakemaster.Step) bool {
+			if s.Tag == -9 {
+				time.Sleep(time.Duration(c.DelayMs) * time.Millisecond)
+			}
+			return true
+		}}
+		at.pacing = PaceFarAhead
+	}
 	if c.Quiet {
 		inner := at.mutate
 		at.mutate = func(steps []fakemaster.Step, evIdx []int) []fakemaster.Step {
@@ -171,7 +191,7 @@ func checkInject(c *InjectCase) error {
 	if len(st.got) > before {
 		return fmt.Errorf("%d transactions were delivered although only %d commit events precede the malformed packet at index %d", len(st.got), before, c.At)
 	}
-	if err := compareTxs(st.got, exp[:len(st.got)], true); err != nil {
+	if err := compareTxs(st.got, exp[:len(st.got)], !c.EmptyName); err != nil {
 		return fmt.Errorf("deliveries before the malformed packet: %v", err)
 	}
 	if len(st.got) != before {
@@ -185,6 +205,12 @@ func checkInject(c *InjectCase) error {
 		return fmt.Errorf("second attempt never requested a dump [stream err %v]", st2.streamErr)
 	}
 	allowed := allowedResume(l, exp, len(st.got), start, 0)
+	if c.EmptyName {
+		allowed = withEmptyName(allowed, c.H.FirstFile)
+		if len(st.got) == 0 {
+			allowed[callerStart] = true
+		}
+	}
 	if !allowed[hist.Pos{File: req.File, Off: int64(req.Pos)}] {
 		return fmt.Errorf("after the malformed packet the next attempt asks for %q:%d; allowed resume points are %v", req.File, req.Pos, keys(allowed))
 	}
@@ -310,6 +336,17 @@ func TestC17(t *testing.T) {
 				}
 			}
 		default: // (b) a gate-failing packet at EVERY index of a generated history
+			if thorough() && envShard == 3%envNShards && !slowInjectDone {
+				// once per thorough run: the malformed (empty) packet arrives after the dump has been idle for more than 10 s
+				slowInjectDone = true
+				c := &InjectCase{H: seqHistory([]int{0, 1, 4, 0}, 2), At: 6, Sub: 3, DelayMs: 10500}
+				rec.Case(true, c, "inject", "inject/after-10s-of-silence")
+				journal("C17", "c17inject", c)
+				if err := checkInject(c); err != nil {
+					rec.Violation("c17inject", c, "", err)
+					rt.Fatalf("C17 violation: %v", err)
+				}
+			}
 			h := gen.History(rt, o)
 			l, err := h.Lay()
 			if err != nil {
@@ -320,8 +357,9 @@ func TestC17(t *testing.T) {
 			sub := rapid.IntRange(0, 7).Draw(rt, "bad_class")
 			quiet := rapid.IntRange(0, 3).Draw(rt, "quiet_after") == 0
 			ownID := rapid.IntRange(0, 3).Draw(rt, "replica_id_is_event_id") == 0
+			emptyName := rapid.IntRange(0, 5).Draw(rt, "empty_start_name") == 0
 			for at := 0; at <= len(payloads); at++ {
-				c := &InjectCase{H: h, At: at, Sub: sub + at, Pacing: pacing, Quiet: quiet, OwnID: ownID}
+				c := &InjectCase{H: h, At: at, Sub: sub + at, Pacing: pacing, Quiet: quiet, OwnID: ownID, EmptyName: emptyName}
 				journal("C17", "c17inject", c)
 				rec.Case(true, c, "inject", fmt.Sprintf("inject/class%d", c.Sub%8), fmt.Sprintf("inject/pacing=%d", pacing))
 				if at == len(payloads)/2 {
